@@ -130,6 +130,18 @@ DiskShape(t) == IF t.k = "array" THEN [k |-> "array", m |-> t.m]
                 ELSE [k |-> t.k, len |-> CfgLen(t)]
 OnDisk(T) == LET S == SelectSeq(T, LAMBDA t : t.k \notin Transparent) IN [i \in 1..Len(S) |-> DiskShape(S[i])]
 Compat(T1, T2) == OnDisk(T1) = OnDisk(T2)
+\* The number of components M of the stored vectors is NOT recorded in a file; it only shows through the payload length.
+\* An EMPTY array therefore loads into any M (there is no payload to mis-size): for an instance x the on-disk shape
+\* forgets M when the array has no cells.  (Observation about the format, DESIGN.md 10.3; not a finding: an empty field
+\* has no component that could be misread.)
+DiskShapeI(h) == IF h.k = "array" THEN [k |-> "array", m |-> IF h.count = 0 THEN 0 ELSE h.m] ELSE [k |-> h.k, len |-> CfgLen(h)]
+DiskShapeT(t, empty) == IF t.k = "array" THEN [k |-> "array", m |-> IF empty THEN 0 ELSE t.m] ELSE [k |-> t.k, len |-> CfgLen(t)]
+HasEmptyArray(x) == \E i \in 1..Len(x) : x[i].k = "array" /\ x[i].count = 0
+CompatInst(x, T2) ==
+  LET X == SelectSeq(x, LAMBDA h : h.k \notin Transparent)
+      S2 == SelectSeq(T2, LAMBDA t : t.k \notin Transparent) IN
+  /\ Len(X) = Len(S2)
+  /\ \A i \in 1..Len(X) : DiskShapeI(X[i]) = DiskShapeT(S2[i], HasEmptyArray(x))
 
 \* what loading x (written from its own type) into type T2 must produce: every configuration unchanged, values
 \* widened exactly or narrowed to nearest
